@@ -198,7 +198,7 @@ def handle (j : Json) : Except String Verdict := do
   let c16 := if hasPanic ser || hasPanic de || hasPanic via || hasPanic (get j "cross_out") || hasPanic (get j "fields_rt") then "fail" else "pass"
   -- records that are not the call stream of any `Serialize` implementation (a map value without its key, …) are
   -- outside the quantifier of the CONTENT clauses of C01/C02, but not of this property any more: since repo fix eafdf15 a
-  -- Map builder refuses the streams that do not alternate and whatever `to_marrow` accepts is well formed (`C03_wfS`
+  -- Map builder refuses the streams that do not alternate and whatever `to_marrow` accepts is well formed (`C03_wf`
   -- without `rawOK`), so the back ends must agree on them like on any other record (before the fix `to_marrow`
   -- returned a Map array with keys and values of different lengths, `to_arrow` failed and `to_arrow2` panicked:
   -- finding C16-map-key-value-alternation)
@@ -558,9 +558,7 @@ def handle (j : Json) : Except String Verdict := do
           | .error _ =>
             let ia := annOfImpl (get o "err")
             if !model.ann.isEmpty && ia != model.ann && agreeSig == "" then
-              -- (the data type the MODEL blames is part of the signature, as in the build / hist suites: the known finding
-              -- C18-dict-value-child-path — the crate names the dictionary's value / key child — is recorded per mechanism)
-              agreeSig := s!"C19/top-model/{form}/{n}/ann/{(model.ann.lookup "data_type").getD "-"}"
+              agreeSig := s!"C19/top-model/{form}/{n}/ann"
               agreeWhy := s!"top-level {form} through {n}: annotations: model {repr model.ann}, implementation {repr ia}"
   -- ---- USE AFTER A FAILED OPERATION: one builder per finisher, the rows pushed one by one with a record the builder
   -- refuses in the middle, a build, another push, another build; every outcome recorded (`fail_hist`).
